@@ -276,9 +276,8 @@ def build_T17(tree):
     shas.append(span_sha(eb))
     if len(eb) != 2 or not isinstance(eb[0], ast.If) or not isinstance(eb[1], ast.Return):
         raise Unsupported('__eq__ changed shape')
-    test = ''.join(ast.unparse(eb[0].test).split())
-    if test not in ('isinstance(other,(Code,CodedConcept))', 'isinstance(other,(CodedConcept,Code))'):
-        raise Unsupported('__eq__ no longer tests isinstance(other, (Code, CodedConcept))')
+    if 'isinstance(other' not in ''.join(ast.unparse(eb[0].test).split()):
+        raise Unsupported('__eq__ no longer tests isinstance(other, ...)')
     ib = eb[0].body
     if len(ib) != 2 or not isinstance(ib[0], ast.Assign) or not isinstance(ib[1], ast.Return) or eb[0].orelse:
         raise Unsupported('__eq__ code branch changed shape')
@@ -293,9 +292,46 @@ def build_T17(tree):
     ne = find_func(tree, f'{cls}.__ne__')
     nb = strip_doc(ne.body)
     shas.append(span_sha(nb))
-    if len(nb) != 1 or ''.join(ast.unparse(nb[0]).split()) not in ('returnnot(self==other)', 'returnnotself==other'):
-        raise Unsupported('__ne__ is no longer `not (self == other)`')
-    out.append('/-- `__ne__` is `not (self == other)` -/\ndef neNegatesEq : Bool := true')
+    if len(nb) != 1 or not isinstance(nb[0], ast.Return):
+        raise Unsupported('__ne__ is no longer a single return')
+    out.append('/-- `__ne__` is `not (self == other)` -/\ndef neNegatesEq : Bool := '
+               + ('true' if ''.join(ast.unparse(nb[0]).split()) in ('returnnot(self==other)', 'returnnotself==other') else 'false'))
+    # the same three methods once more as PROGRAMS (bridged to the hand-written dispatch in Proofs/CodingTie.lean)
+    class EqPlan(ast.NodeTransformer):
+        def visit_Assign(self, node):
+            if ast.unparse(node.targets[0]) == 'this':
+                return None
+            return node
+
+        def visit_Return(self, node):
+            t = ''.join(ast.unparse(node.value).split())
+            if t == 'Code.__eq__(this,other)':
+                return ast.copy_location(ast.parse('return 0').body[0], node)
+            if t == 'super().__eq__(other)':
+                return ast.copy_location(ast.parse('return 1').body[0], node)
+            raise Unsupported('__eq__ returns something else: ' + t[:60])
+    eq_blk = [EqPlan().visit(ast.parse(ast.unparse(st)).body[0]) for st in eb]
+    import re as _re
+
+    class Isinst(ast.NodeTransformer):
+        def visit_Call(self, node):
+            if ast.unparse(node.func) == 'isinstance' and ast.unparse(node.args[0]) == 'other':
+                cl = node.args[1].elts if isinstance(node.args[1], ast.Tuple) else [node.args[1]]
+                names = [ast.unparse(c) for c in cl]
+                if not set(names) <= {'Code', 'CodedConcept'}:
+                    raise Unsupported('__eq__: isinstance against ' + ','.join(names))
+                e = ' or '.join('other_is_' + n for n in names)
+                return ast.copy_location(ast.parse('(' + e + ')', mode='eval').body, node)
+            return node
+    eq_blk = [Isinst().visit(st) for st in eq_blk]
+    for st in eq_blk:
+        ast.fix_missing_locations(st)
+    out.append(translate_block(eq_blk, 'conceptEqPlan', [('other_is_Code', 'bool'), ('other_is_CodedConcept', 'bool')], {},
+                               doc='`CodedConcept.__eq__` as a program: 0 = `Code.__eq__(this, other)` with `this = Code(<eqThisArgs>)`, '
+                                   '1 = `Dataset.__eq__` (comparison of whole datasets, meaning included)'))
+    ne_blk = [ast.parse(ast.unparse(nb[0])).body[0]]
+    out.append(translate_block(ne_blk, 'conceptNeOf', [], {'self == other': ('bool', 'eqResult')},
+                               doc='`CodedConcept.__ne__` as an expression over the result of `self == other`'))
     hs = find_func(tree, f'{cls}.__hash__')
     hb = strip_doc(hs.body)
     shas.append(span_sha(hb))
@@ -315,10 +351,24 @@ def build_T17(tree):
     fb = strip_doc(fc.body)
     shas.append(span_sha(fb))
     txt = [''.join(ast.unparse(s).split()) for s in fb]
-    if txt != ['ifisinstance(code,cls):returncode', 'returncls(*code)']:
-        raise Unsupported('from_code changed shape')
+    if not txt or txt[-1] != 'returncls(*code)':
+        raise Unsupported('from_code no longer ends in return cls(*code)')
     out.append('/-- `from_code`: an existing CodedConcept is returned as is, a Code is unpacked into the constructor -/\n'
-               'def fromCodeReturnsSame : Bool := true')
+               'def fromCodeReturnsSame : Bool := ' + ('true' if txt[0] == 'ifisinstance(code,cls):returncode' else 'false'))
+
+    class FcPlan(ast.NodeTransformer):
+        def visit_Return(self, node):
+            t = ''.join(ast.unparse(node.value).split())
+            if t == 'code':
+                return ast.copy_location(ast.parse('return 0').body[0], node)
+            if t == 'cls(*code)':
+                return ast.copy_location(ast.parse('return 1').body[0], node)
+            raise Unsupported('from_code returns something else: ' + t[:60])
+    fc_blk = [FcPlan().visit(ast.parse(ast.unparse(st)).body[0]) for st in fb]
+    for st in fc_blk:
+        ast.fix_missing_locations(st)
+    out.append(translate_block(fc_blk, 'fromCodePlan', [], {'isinstance(code, cls)': ('bool', 'codeIsConcept')},
+                               doc='`CodedConcept.from_code` as a program: 0 = the argument itself is returned, 1 = `cls(*code)`'))
     import hashlib
     return '\n\n'.join(out), hashlib.sha256(''.join(shas).encode()).hexdigest()
 
